@@ -233,8 +233,12 @@ inductive Mgr where
   | unsafe_ | safe
   deriving Repr, DecidableEq
 
+def isHostV (v : V) : Bool := match v with | .host _ _ => true | _ => false
+
+/-- the manager's Convert; a host-dependent value stays host-dependent -/
 def convert (m : Mgr) (v : V) (t : VT) : R :=
-  match m with
+  if isHostV v then .ok (.host "convert" [v])
+  else match m with
   | .unsafe_ => convertUnsafe v t
   | .safe => convertSafe v t
 
@@ -372,7 +376,7 @@ def inLoop (m : Mgr) (elem : V) : List V → R
     | .panic s => .panic s
 
 /-- a binary operator of IVariantOperations: `op(value1, value2)` -/
-def binop (m : Mgr) (op : Op) (a b : V) : R :=
+def binopCore (m : Mgr) (op : Op) (a b : V) : R :=
   match op with
   | .equal =>
     equalOp m a b
@@ -436,9 +440,14 @@ def binop (m : Mgr) (op : Op) (a b : V) : R :=
     if a.typ == .null || b.typ == .null then .ok .null
     else (convert m b a.typ).bind fun b' => arith op a b'
 
+/-- `binopCore`, except that host-dependent operands give a host-dependent result -/
+def binop (m : Mgr) (op : Op) (a b : V) : R :=
+  if isHostV a || isHostV b then .ok (.host "op" [a, b]) else binopCore m op a b
+
 /-- Not / Negative -/
 def unop (op : Op) (a : V) : R :=
   match op, a with
+  | _, .host t x => .ok (.host "unop" [.host t x])
   | .not, .null => .ok (.bool true)
   | .not, .int x => .ok (.int (~~~ x))
   | .not, .long x => .ok (.long (~~~ x))
